@@ -442,3 +442,194 @@ Proof.
 Qed.
 
 End Decode.
+
+(* ---------- cross-protocol ---------- *)
+Definition ascii_like (u : uni) : Prop :=
+  forall r, in_dom r = true ->
+    u_upper u r = u_upper ascii_uni r /\ u_tolower u r = u_tolower ascii_uni r /\
+    u_print u r = u_print ascii_uni r /\ u_toupper u r = u_toupper ascii_uni r.
+
+(* ToUpper of a lower-case rune is never an ASCII character other than A-Z *)
+Definition upper_hyp (u : uni) : Prop :=
+  forall r, u_lower u r = true -> printable_nonupper (u_toupper u r) = false.
+
+Lemma zlist_eqb_refl l : zlist_eqb l l = true.
+Proof. unfold zlist_eqb. induction l; cbn; [reflexivity|]. now rewrite Z.eqb_refl. Qed.
+
+Lemma kstr_equiv_sound a b : kstr_equivb a b = true -> forall u, key_string u a = key_string u b.
+Proof.
+  unfold kstr_equivb. intros H u.
+  apply andb_true_iff in H as [H Hcaps]. apply andb_true_iff in H as [Hc Hp].
+  apply Z.eqb_eq in Hc. apply zlist_eqb_eq in Hp.
+  unfold key_string. rewrite <- Hc, <- Hp.
+  destruct ((k_code a =? KeyTab) || (k_code a =? KeySpace) || (k_code a =? KeyEsc) || (k_code a =? KeyBackspace) || (k_code a =? KeyEnter)) eqn:E5; [reflexivity|].
+  destruct (k_code a =? 8); [reflexivity|]. destruct (k_code a <? 0); [reflexivity|].
+  destruct (k_code a <? 32) eqn:E32; [reflexivity|].
+  destruct (k_code a <=? MaxRune) eqn:Emax; [|reflexivity].
+  repeat (apply orb_true_iff in Hcaps; destruct Hcaps as [Hcaps|Hcaps]).
+  - apply eqb_prop in Hcaps. now rewrite Hcaps.
+  - unfold MaxRune in *. lia.
+  - lia.
+  - rewrite Hcaps in E5. rewrite !orb_true_r in E5. discriminate.
+  - rewrite Hcaps in E5. rewrite !orb_true_r in E5. discriminate.
+Qed.
+
+Lemma safe_fix c x : printable_nonupper c = true -> (c =? rune_fix x) = (c =? x).
+Proof.
+  unfold printable_nonupper, in_range, rune_fix, rune_valid, MaxRune, RuneError. intros H.
+  destruct ((0 <=? x) && (x <=? 1114111) && negb ((55296 <=? x) && (x <=? 57343))) eqn:E; [reflexivity|].
+  lia.
+Qed.
+
+Definition norm_key (k : key) : key :=
+  mkKey (if safe_text_code (k_code k) && (zlist_eqb (k_text k) [] || zlist_eqb (k_text k) [k_code k]) then [] else k_text k)
+        (k_code k) (k_shifted k)
+        (if (k_base k =? 0) || (k_base k =? k_code k) then 0 else k_base k) 0 0.
+
+Lemma cross_all_ok_true : cross_all_ok = true.
+Proof. vm_compute. reflexivity. Qed.
+
+Section Cross.
+Variable u : uni.
+Hypothesis Hup : upper_hyp u.
+
+Lemma norm_matches k r m km : r <> 0 ->
+  matches_core u k r m km = matches_core u (norm_key k) r m km.
+Proof.
+  intros Hr. unfold matches_core, norm_key. cbn [k_code k_text k_shifted k_base].
+  set (R1 := (k_code k =? r) && (m =? km)).
+  (* base *)
+  assert (HB : R1 || ((k_base k =? r) && (m =? km)) =
+               R1 || (((if (k_base k =? 0) || (k_base k =? k_code k) then 0 else k_base k) =? r) && (m =? km))).
+  { destruct ((k_base k =? 0) || (k_base k =? k_code k)) eqn:Eb; [|reflexivity].
+    apply orb_true_iff in Eb as [Eb|Eb]; apply Z.eqb_eq in Eb; rewrite Eb.
+    - reflexivity.
+    - fold R1. destruct R1; cbn [orb]; [reflexivity|]. destruct (0 =? r) eqn:E0; [lia|reflexivity]. }
+  (* text *)
+  destruct (safe_text_code (k_code k) && (zlist_eqb (k_text k) [] || zlist_eqb (k_text k) [k_code k])) eqn:Et.
+  - apply andb_true_iff in Et as [Hsafe Et]. unfold safe_text_code in Hsafe.
+    apply orb_true_iff in Et as [Et|Et]; apply zlist_eqb_eq in Et; rewrite Et.
+    + fold R1. destruct R1; cbn [orb andb]; [reflexivity|]. cbn [orb] in HB.
+      change (zlist_eqb [] [rune_fix r]) with false. change (zlist_eqb [] [rune_fix (u_toupper u r)]) with false.
+      cbn [andb orb]. rewrite !andb_false_r. cbn [orb].
+      destruct ((k_shifted k =? r) && (m =? nonshift km)); cbn [orb]; [reflexivity|]. now rewrite HB.
+    + assert (E2 : zlist_eqb [k_code k] [rune_fix r] = (k_code k =? r)).
+      { unfold zlist_eqb. cbn. rewrite andb_true_r. now apply safe_fix. }
+      assert (E6 : u_lower u r && zlist_eqb [k_code k] [rune_fix (u_toupper u r)] = false).
+      { destruct (u_lower u r) eqn:El; [|reflexivity]. cbn [andb].
+        unfold zlist_eqb. cbn. rewrite andb_true_r. rewrite safe_fix by exact Hsafe.
+        specialize (Hup r El). destruct (k_code k =? u_toupper u r) eqn:E; [|reflexivity].
+        apply Z.eqb_eq in E. rewrite <- E in Hup. congruence. }
+      rewrite E2. fold R1.
+      change (zlist_eqb [] [rune_fix r]) with false. change (zlist_eqb [] [rune_fix (u_toupper u r)]) with false.
+      rewrite <- !andb_assoc. rewrite (andb_assoc (u_lower u r)), E6.
+      cbn [andb]. rewrite !andb_false_r.
+      destruct R1; cbn [orb]; [reflexivity|]. cbn [orb] in HB.
+      destruct ((k_shifted k =? r) && (m =? nonshift km)); cbn [orb]; [reflexivity|]. now rewrite HB.
+  - destruct (R1 || zlist_eqb (k_text k) [rune_fix r] && (m =? km)) eqn:E12.
+    + reflexivity.
+    + apply orb_false_iff in E12 as [E1 E2]. rewrite E1 in HB. cbn [orb] in *.
+      destruct ((k_shifted k =? r) && (m =? nonshift km)); cbn [orb]; [reflexivity|]. now rewrite HB.
+Qed.
+
+Lemma norm_equiv a b : kmatch_equivb a b = true -> norm_key a = norm_key b.
+Proof.
+  unfold kmatch_equivb, norm_key. intros H.
+  apply andb_true_iff in H as [H Ht]. apply andb_true_iff in H as [H Hb].
+  apply andb_true_iff in H as [H _]. apply andb_true_iff in H as [Hc Hs].
+  apply Z.eqb_eq in Hc, Hs. rewrite <- Hc, <- Hs in *. f_equal.
+  - apply orb_true_iff in Ht as [Ht|Ht].
+    + apply zlist_eqb_eq in Ht. now rewrite Ht.
+    + apply andb_true_iff in Ht as [Ht Htb]. apply andb_true_iff in Ht as [Hsafe Hta].
+      rewrite Hsafe, Hta, Htb. reflexivity.
+  - apply orb_true_iff in Hb as [Hb|Hb].
+    + apply Z.eqb_eq in Hb. now rewrite Hb.
+    + apply andb_true_iff in Hb as [Hba Hbb]. rewrite Hba, Hbb. reflexivity.
+Qed.
+
+Lemma matches_core_norm_fields a b r m km :
+  norm_key a = norm_key b -> r <> 0 -> matches_core u a r m km = matches_core u b r m km.
+Proof. intros E Hr. rewrite (norm_matches a), (norm_matches b) by exact Hr. now rewrite E. Qed.
+
+Lemma kmatch_equiv_sound a b : kmatch_equivb a b = true ->
+  forall r mods, r <> 0 -> matches u a r mods = matches u b r mods.
+Proof.
+  intros H r mods Hr. rewrite !matches_core_eq.
+  assert (Hm : strip_locks (k_mods a) = strip_locks (k_mods b)).
+  { unfold kmatch_equivb in H. repeat (apply andb_true_iff in H; destruct H as [H ?]). now apply Z.eqb_eq. }
+  rewrite Hm. apply matches_core_norm_fields; [now apply norm_equiv|exact Hr].
+Qed.
+
+Hypothesis Hascii : ascii_like u.
+
+Lemma decode_ext s : seq_dom_ok s = true -> decode_key u s = decode_key ascii_uni s.
+Proof.
+  unfold seq_dom_ok. intros H. apply andb_true_iff in H as [H1 H2].
+  assert (Hpre : decode_pre u s = decode_pre ascii_uni s).
+  { destruct s; try reflexivity. cbn [decode_pre]. unfold decode_print.
+    cbn [seq_first_rune] in H1.
+    assert (Hr : in_dom (match g with r :: _ => r | [] => 0 end) = true) by (destruct g; [reflexivity|exact H1]).
+    destruct (Hascii _ Hr) as (Eu & El & _ & _). now rewrite Eu, El. }
+  unfold decode_key. rewrite Hpre. unfold decode_finish.
+  destruct (Hascii _ H2) as (_ & _ & Ep & Et). now rewrite Ep, Et.
+Qed.
+
+Lemma cross_protocol c sl sk :
+  In c both_expressible -> In sl (legacy_encs c) -> In sk (kitty_encs c) -> cross_guard c sk = true ->
+  key_string u (decode_key u sl) = key_string u (decode_key u sk) /\
+  forall r mods, r <> 0 -> matches u (decode_key u sl) r mods = matches u (decode_key u sk) r mods.
+Proof.
+  intros Hc Hl Hk Hg. pose proof cross_all_ok_true as H. unfold cross_all_ok in H.
+  rewrite forallb_forall in H. specialize (H c Hc).
+  rewrite forallb_forall in H. specialize (H sl Hl).
+  rewrite forallb_forall in H. specialize (H sk Hk).
+  unfold cross_pair_ok in H. rewrite Hg in H. cbn [negb orb] in H.
+  apply andb_true_iff in H as [Hd H]. apply andb_true_iff in Hd as [Hdl Hdk].
+  apply andb_true_iff in H as [Hs Hm].
+  rewrite (decode_ext sl Hdl), (decode_ext sk Hdk). split.
+  - now apply kstr_equiv_sound.
+  - now apply kmatch_equiv_sound.
+Qed.
+
+End Cross.
+
+Lemma ascii_uni_like : ascii_like ascii_uni.
+Proof. intros r _. repeat split. Qed.
+
+Lemma ascii_uni_upper_hyp : upper_hyp ascii_uni.
+Proof.
+  intros r. unfold ascii_uni, uni_of. cbn [u_lower u_toupper]. unfold info_of.
+  destruct (in_range r 0 127) eqn:Ea; cbn [find]; [|cbn; discriminate].
+  unfold ascii_info. destruct (in_range r 97 122) eqn:El.
+  - intros _. unfold printable_nonupper, in_range in *. lia.
+  - destruct (in_range r 65 90); destruct (in_range r 32 126); cbn; discriminate.
+Qed.
+
+(* the two recorded findings are real: witnesses inside both_expressible *)
+Lemma cross_esc_upper_refuted :
+  let c := mkChord 97 3 in let sl := SESC [] 65 in let sk := SCSI [] [[97; 65]; [4]] 117 in
+  In c both_expressible /\ In sl (legacy_encs c) /\ In sk (kitty_encs c) /\ guard_esc_upper c = true /\
+  key_string ascii_uni (decode_key ascii_uni sl) = str "Alt+A" /\
+  key_string ascii_uni (decode_key ascii_uni sk) = str "Alt+Shift+a" /\
+  matches ascii_uni (decode_key ascii_uni sl) 97 3 = false /\
+  matches ascii_uni (decode_key ascii_uni sk) 97 3 = true.
+Proof.
+  cbv zeta. split; [|split; [|split]].
+  - apply (existsb_exists (fun x => (ch_code x =? 97) && (ch_mods x =? 3))). vm_compute. reflexivity.
+  - vm_compute. auto.
+  - vm_compute. auto 20.
+  - vm_compute. repeat split; reflexivity.
+Qed.
+
+Lemma cross_shift_noalt_refuted :
+  let c := mkChord 97 1 in let sl := SPrint [65] in let sk := SCSI [] [[97]; [2]] 117 in
+  In c both_expressible /\ In sl (legacy_encs c) /\ In sk (kitty_encs c) /\ guard_shift_noalt c sk = true /\
+  matches ascii_uni (decode_key ascii_uni sl) 65 0 = true /\
+  matches ascii_uni (decode_key ascii_uni sk) 65 0 = false.
+Proof.
+  cbv zeta. split; [|split; [|split]].
+  - apply (existsb_exists (fun x => (ch_code x =? 97) && (ch_mods x =? 1))). vm_compute. reflexivity.
+  - vm_compute. auto.
+  - vm_compute. auto 20.
+  - vm_compute. repeat split; reflexivity.
+Qed.
